@@ -10,3 +10,129 @@ ASSUMPTIONS = COMMON_ASSUMPTIONS
 RULE = ("random well-formed designs stressing the documented relaxations (Forwarder-style ready = state | other.run with other.schedule_before(this) on half of the bodies, nesting depth <= 3, provided methods); oracle: amaranth.hdl._ir.build_netlist on the elaborated design (Amaranth's own bit-level combinational-cycle check) raises nothing, then the design is simulated; non-trivial design = contains a run-dependent ready term; distinct = design shape signature")
 MINIMA = {"quick": {"designs_simulated": 60, "designs_with_run_dependent_ready": 20, "designs_with_nesting": 20, "distinct": 20}, "thorough": {"designs_simulated": 4000, "distinct": 500}}
 EVALUATIONS = "designs_simulated"
+
+
+# ---- library topologies: the canonical users of the documented relaxations (run-dependent ready with schedule_before, nesting, condition()) ----
+import random as _random
+import traceback as _traceback
+
+from amaranth import Elaboratable as _Elaboratable
+from amaranth.hdl._ir import build_netlist as _build_netlist
+
+_gen_shards, _gen_run_shard = shards, run_shard
+
+
+class _Chain(_Elaboratable):
+    """A random chain of connectors glued by ConnectTrans / MethodMap / MethodFilter(use_condition) / Collector, ends exposed for a driver."""
+
+    def __init__(self, rnd):
+        from transactron.lib import Forwarder, Pipe, BasicFifo, FIFO, Connect
+        self.rnd = rnd
+        L = [("x", 8)]
+        self.L = L
+        kinds = []
+        self.stages = []
+        for _ in range(rnd.randint(2, 6)):
+            k = rnd.choice(["Forwarder", "Pipe", "BasicFifo", "FIFO", "Connect"])
+            kinds.append(k)
+            self.stages.append({"Forwarder": lambda: Forwarder(L), "Pipe": lambda: Pipe(L), "BasicFifo": lambda: BasicFifo(L, rnd.randint(1, 3)),
+                                "FIFO": lambda: FIFO(L, rnd.randint(1, 3)), "Connect": lambda: Connect(L)}[k]())
+        self.glue = [rnd.choice(["trans", "map", "filter_cond", "collector"]) for _ in range(len(self.stages) - 1)]
+        self.kinds = kinds
+        self.write = self.stages[0].write
+        self.read = self.stages[-1].read
+
+    def elaborate(self, platform):
+        from transactron import TModule
+        from transactron.lib import ConnectTrans, MethodMap, MethodFilter, Collector
+        m = TModule()
+        for i, s in enumerate(self.stages):
+            m.submodules[f"s{i}"] = s
+        for i, g in enumerate(self.glue):
+            src, dst = self.stages[i].read, self.stages[i + 1].write
+            if g == "trans":
+                m.submodules[f"g{i}"] = ConnectTrans.create(dst, src)
+            elif g == "map":
+                m.submodules[f"g{i}m"] = mp = MethodMap.create(dst, i_transform=(self.L, lambda mm, v: {"x": v.x + 1}))
+                m.submodules[f"g{i}"] = ConnectTrans.create(mp.method, src)
+            elif g == "filter_cond":
+                m.submodules[f"g{i}f"] = fl = MethodFilter.create(dst, lambda mm, v: v.x[0] | 1, use_condition=True)
+                m.submodules[f"g{i}"] = ConnectTrans.create(fl.method, src)
+            else:
+                m.submodules[f"g{i}c"] = co = Collector.create([src])
+                m.submodules[f"g{i}"] = ConnectTrans.create(dst, co.method)
+        return m
+
+
+def _library_design(rnd, i):
+    """Returns (description, simulator) of an elaborated library topology."""
+    from amaranth import Module, Signal
+    from amaranth.sim import Simulator
+    from transactron import TransactronContextElaboratable
+    from transactron.testing import SimpleTestCircuit, PysimSimulator
+    from transactron.utils.dependencies import DependencyContext, DependencyManager
+    kind = ["chain", "condition", "connect", "pipeline", "chain"][i % 5]
+    dm = DependencyManager()
+    with DependencyContext(dm):
+        if kind == "chain":
+            ch = _Chain(rnd)
+            sim = PysimSimulator(SimpleTestCircuit(ch, exclude={"stages"}), max_cycles=50)
+            return {"kind": kind, "stages": ch.kinds, "glue": ch.glue}, sim
+        if kind == "pipeline":
+            from . import c28
+            stages, live = c28.gen(rnd)
+            from transactron.lib import Adapter, AdapterTrans
+            from transactron.testing import TestbenchIO
+            from transactron.utils import ModuleConnector
+            dut = c28.Pipe(stages, live)
+            mocks = [TestbenchIO(Adapter.create(mth)) for mth in dut.calls.values()]
+            exts = [TestbenchIO(AdapterTrans.create(mth)) for mth in dut.exts.values()]
+            sim = PysimSimulator(ModuleConnector(SimpleTestCircuit(dut, exclude={"calls", "exts"}), *mocks, *exts), max_cycles=50)
+            return {"kind": kind, "stages": [s["kind"] + ("+fifo" if s["fifo"] else "") for s in stages]}, sim
+        if kind == "condition":
+            from . import c12
+            D = c12.gen(rnd)
+            e = c12.Emit(D)
+        else:
+            from . import c13
+            D = c13.gen(rnd, i)
+            e = c13.Emit(D)
+        top = TransactronContextElaboratable(e, dependency_manager=dm)
+        wrap = Module()
+        dummy = Signal()
+        wrap.d.sync += dummy.eq(1)
+        wrap.submodules.top = top
+        return {"kind": kind, "ir": D}, Simulator(wrap)
+
+
+def shards(tier, seed):
+    out = _gen_shards(tier, seed)
+    n = 40 if tier == "quick" else 1500
+    out += [{"seed": seed, "library": True, "first": i, "n": 4 if tier == "quick" else 30} for i in range(0, n, 4 if tier == "quick" else 30)]
+    return out
+
+
+def run_shard(spec, rec):
+    if not spec.get("library"):
+        return _gen_run_shard(spec, rec)
+    for i in range(spec["first"], spec["first"] + spec["n"]):
+        rnd = _random.Random(f"C10:lib:{spec['seed']}:{i}")
+        try:
+            desc, sim = _library_design(rnd, i)
+        except Exception:
+            rec.check("C10:library_topology_elaborates", False, case={"library_design": i}, detail=_traceback.format_exc()[-1200:])
+            continue
+        rec.check("C10:library_topology_elaborates", True)
+        try:
+            _build_netlist(sim._design)
+            rec.check("C10:no_combinational_cycle", True)
+        except Exception as ex:
+            rec.check("C10:no_combinational_cycle", False, case=dict(desc, library_design=i), detail=str(ex)[:600])
+        rec.count("library_topologies:" + desc["kind"])
+        rec.count("designs_simulated")
+        rec.nontrivial("lib|" + desc["kind"] + "|" + str(desc.get("stages", desc.get("ir", {}) and sorted(desc["ir"].items())[:4]))[:80])
+
+
+RULE += (" [plus library topologies: random chains of Forwarder / Pipe / BasicFifo / FIFO / Connect glued by ConnectTrans, MethodMap, "
+         "MethodFilter(use_condition) and Collector; condition() designs of C12; Connect / simultaneous() designs of C13; PipelineBuilder pipelines of C28 - "
+         "each elaborated under the default scheduler and passed through the same combinational-cycle check]")
